@@ -505,6 +505,12 @@ class PyExec:
                 return PStr([z3.IntVal(ord(ch)) for ch in c], text=c)
             if c is None:
                 return PNone()
+            if isinstance(c, tuple):
+                items = []
+                for x in c:
+                    items.append(PBool(x) if isinstance(x, bool) else PInt(x) if isinstance(x, int)
+                                 else PStr([z3.IntVal(ord(ch)) for ch in x], text=x))
+                return PTuple(items)
         if n.id in ("True", "False"):
             return PBool(n.id == "True")
         if n.id in self.opt.get("opaque_names", ()):
@@ -793,6 +799,22 @@ class PyExec:
     def call_name(self, st, name, n):
         if name in self.callees:
             return self.apply_callee(st, self.callees[name], self.args(st, n), n)
+        if name == "isinstance" and len(n.args) == 2 and (isinstance(n.args[1], ast.Name) or (
+                isinstance(n.args[1], ast.Tuple) and all(isinstance(x, ast.Name) for x in n.args[1].elts))):
+            v = self.ev(st, n.args[0])
+            classes = [n.args[1].id] if isinstance(n.args[1], ast.Name) else [x.id for x in n.args[1].elts]
+            if isinstance(v, (PAny, PInt)):
+                # the dynamic type of an abstract value: an uninterpreted predicate per class name
+                return PBool(z3.Or(*[z3.Function("isinstance_" + c, IntSort, z3.BoolSort())(v.t) for c in classes]))
+            if isinstance(v, PRef):
+                return PBool(z3.BoolVal(v.cls in classes))
+            raise OutOfSubset("isinstance of %s" % v.kind)
+        if name in ("str", "repr") and len(n.args) == 1 and not n.keywords:
+            v = self.ev(st, n.args[0])
+            if isinstance(v, (PAny, PInt)):
+                # text renderings of an abstract value: two DIFFERENT uninterpreted functions (nothing relates str to repr)
+                return PAny(z3.Function("builtin_" + name, IntSort, IntSort)(v.t))
+            raise OutOfSubset("%s of %s" % (name, v.kind))
         a = self.args(st, n)
         if name == "chr":
             t = self.as_int(st, a[0], n)
@@ -838,10 +860,20 @@ class PyExec:
             if isinstance(a[0], PRef) and a[0].cls == "strbuilder":
                 return PRef("strbuilder", a[0].addr)     # the flat code-point sequence itself
             raise OutOfSubset("''.join of %s" % a[0].kind)
+        dotted = dotted_name(f)
+        if dotted and dotted in self.callees and dotted.split(".")[0] not in st.vars:
+            # module-level function reached through its module (hashlib.sha256, os.path.splitext): by contract
+            return self.apply_callee(st, self.callees[dotted], self.args(st, n), n)
         recv = self.ev(st, recv_node)
+        if meth in self.opt.get("identity_methods", ()) and isinstance(recv, (PInt, PAny)):
+            # e.g. text.encode("UTF-8") on an abstract string identity: the same identity (injective re-encoding)
+            self.args(st, n)
+            return recv
         key = None
         if isinstance(recv, PRef) and recv.cls.startswith("obj:"):
             key = "%s.%s" % (recv.cls[4:], meth)
+        elif isinstance(recv, PRef) and ("%s.%s" % (recv.cls, meth)) in self.callees:
+            key = "%s.%s" % (recv.cls, meth)
         if key and key in self.callees:
             return self.apply_callee(st, self.callees[key], [recv] + self.args(st, n), n)
         if key and key in self.opt.get("inline", ()):
@@ -1108,6 +1140,38 @@ class PyExec:
         self.guard(st, "AssertionError", c, n)
         return [("normal", st, None)]
 
+    def st_Try(self, st, n):
+        """try: body / except E: handler.  The body runs normally; `raise E` inside it reaches the matching handler.  Every
+        handler is ALSO run from the state at entry of the try with the heap havocked and the names assigned in the body
+        undefined - an over-approximation of 'some call in the body raised E at some point'."""
+        if n.finalbody or n.orelse:
+            raise OutOfSubset("try with finally / else")
+        entry = st.copy()
+        outs = []
+        for o in self.exec_block(st, n.body):
+            if o[0] == "raise" and any(self._handler_matches(h, o[2]) for h in n.handlers):
+                h = [h for h in n.handlers if self._handler_matches(h, o[2])][0]
+                outs.extend(self.exec_block(o[1], h.body))
+            else:
+                outs.append(o)
+        for h in n.handlers:
+            if h.name:
+                raise OutOfSubset("except ... as name")
+            s2 = entry.copy()
+            s2.heap = s2.heap.copy()
+            for comp in list(s2.heap.c):
+                s2.heap.set(comp, self.fresh("exc_" + comp.replace(".", "_"), s2.heap.get(comp).sort()))
+            for nm in assigned_names(n.body):
+                s2.vars.pop(nm, None)
+            outs.extend(self.exec_block(s2, h.body))
+        return outs
+
+    def _handler_matches(self, h, excname):
+        if h.type is None:
+            return True
+        names = [h.type] if not isinstance(h.type, ast.Tuple) else list(h.type.elts)
+        return any(isinstance(x, ast.Name) and x.id in (excname, "Exception", "BaseException") for x in names)
+
     def st_Raise(self, st, n):
         name = "Exception"
         if n.exc is not None:
@@ -1242,14 +1306,26 @@ class PyExec:
             s1 = st.copy()
             if not z3.is_true(c):
                 s1.path.append(c)
-            outs += self.exec_block(s1, n.body)
+            outs += self.guarded_block(s1, n.body, n)
         if not z3.is_true(c):
             s2 = st.copy()
             if not z3.is_false(c):
                 s2.path.append(z3.Not(c))
-            outs += self.exec_block(s2, n.orelse) if n.orelse else [("normal", s2, None)]
+            outs += self.guarded_block(s2, n.orelse, n) if n.orelse else [("normal", s2, None)]
         normals = self.try_merge([o[1] for o in outs if o[0] == "normal"])
         return [o for o in outs if o[0] != "normal"] + [("normal", s, None) for s in normals]
+
+    def guarded_block(self, st, stmts, node):
+        """a branch with a construct outside the subset is acceptable iff it is unreachable under the contract: that becomes
+        an obligation of kind 'subset' (a failed one means UNDECIDED, never a violation)"""
+        n_obl = len(self.obligations)
+        probe = st.copy()
+        try:
+            return self.exec_block(st, stmts)
+        except OutOfSubset as e:
+            del self.obligations[n_obl:]
+            self.oblige(probe, "subset", "branch_with_unmodelled_construct_is_unreachable", False, node, note="branch contains: %s" % e)
+            return []
 
     # loops -----------------------------------------------------------------------------------
     def st_While(self, st, n):
@@ -1463,6 +1539,18 @@ class PyExec:
         return [a.arg for a in fa.posonlyargs + fa.args + ([fa.vararg] if fa.vararg else [])]
 
 
+def dotted_name(n):
+    """a.b.c for an Attribute chain rooted in a Name, else None"""
+    parts = []
+    while isinstance(n, ast.Attribute):
+        parts.append(n.attr)
+        n = n.value
+    if isinstance(n, ast.Name):
+        parts.append(n.id)
+        return ".".join(reversed(parts))
+    return None
+
+
 def arg_term(a):
     """value -> what contract lambdas see: Int/Bool term, address, tuple of those"""
     if isinstance(a, (PInt, PAny)):
@@ -1539,4 +1627,6 @@ def module_constants(tree, names=None):
             continue
         if isinstance(v, (int, str, bool)) or v is None:
             out[tgt] = v
+        elif isinstance(v, (tuple, list)) and all(isinstance(x, (int, str, bool)) for x in v):
+            out[tgt] = tuple(v)     # constant display of simple constants (used for membership tests)
     return out
